@@ -61,7 +61,7 @@ def evaluation_values(ctx: Ctx, cb: Func):
         v = t[2][0] if t[2] else dict(t[3]).get("variables")
         if v is None:
             raise AnalysisError("evaluation call without a variables argument")
-        v = X.force_inline(v, cb)
+        v = X.force_inline(v, cb, effects=True)
         for conds, leaf in guard_leaves(v, strip_wrappers=False):
             out.append((call_, conds, leaf))
     if not out:
@@ -195,7 +195,7 @@ def c09_3(ctx: Ctx) -> RuleResult:
                         src_ok = False
                         if f.cls is cb.cls and f.name == "start":
                             src_ok = is_copy and val[1][1][0] == "param"
-                        elif f is cb:
+                        elif f.cls is cb.cls:
                             src_ok = is_copy and ends_with_attrs(val[1][1], "evaluations", "variables")
                         ok = whole and src_ok
                         res.add(f, st, f"`{fld}` is rebound to a copy of the start vector / the nested result's variables", ok,
